@@ -277,7 +277,7 @@ def run(ctx):
         # ---- 2. the reference: GNU ld must agree with the spec on every valued expression it can parse
         ld_rej = set()
         for r in pmap(lambda ib: ld_rejected_shapes(d, obj, f"ldprobe{ib[0]}", ib[1]),
-                      list(enumerate(chunks(reps, len(reps) // workers + 1))), workers):
+                      list(enumerate(chunks(reps, 120))), workers):
             ld_rej |= r
         lap("ld shape probe")
         unref = [e for e in ok if e["shape"] in ld_rej]
@@ -297,7 +297,8 @@ def run(ctx):
         cov["gnu_ld_agrees_on"] = len(ok)
         lap("ld reference")
         # division by zero: GNU ld must refuse (pins the strict && || of the spec); sampled, one link each
-        dz = rng.sample(divzero, min(len(divzero), 12 if ctx.quick else 60))
+        dz_ok = [e for e in divzero if shape_of(e["toks"]) not in ld_rej and "^" not in e["toks"]]
+        dz = rng.sample(dz_ok, min(len(dz_ok), 12 if ctx.quick else 60))
 
         def ld_dz(e):
             p = d / f"dz{e['id']}.ld"
@@ -332,7 +333,7 @@ def run(ctx):
                                                         for s, e in batch])
 
         shape_res = {}
-        for r in pmap(probe, list(enumerate(chunks(reps, max(20, len(reps) // (workers * 2) + 1)))), workers):
+        for r in pmap(probe, list(enumerate(chunks(reps, 60))), workers):
             shape_res.update(r)
         lap("wild shape probe")
         rejected_shapes = {s for s, (o, _) in shape_res.items() if o == "parse-reject"}
